@@ -72,6 +72,7 @@ type Engine struct {
 
 	fresh         int
 	litSig        *types.Signature            // signature of the function literal being executed
+	litArgs       [][]Val                     // arguments of the enclosing function literals, outermost first
 	finals        map[string]Val              // values of mutated arguments after the call being applied
 	ghostMod      map[string]bool             // ghost state assigned by callees (over-approximated per function)
 	fieldW        map[int]bool                // field indices written in the function (loop frames)
